@@ -11,6 +11,7 @@ import (
 	"time"
 
 	netty "github.com/go-netty/go-netty"
+	"github.com/go-netty/go-netty/utils/pool/pbytes"
 	"nvharness/mock"
 )
 
@@ -163,7 +164,7 @@ func runC18rf(seed int64, count int) {
 			hang = 1
 		}
 		if hang == 1 {
-			emit("C18 rf q=%d %s n=0 err=- queued=- hang=1", q, strings.Join(hs, ","))
+			emit("C18 rf q=%d %s n=0 err=- queued=- hang=1 dup=0", q, strings.Join(hs, ","))
 			continue
 		}
 		dexec.runAll()
@@ -178,7 +179,27 @@ func runC18rf(seed int64, count int) {
 		case err != nil:
 			cls = "other"
 		}
-		emit("C18 rf q=%d %s n=%d err=%s queued=%s hang=0", q, strings.Join(hs, ","), n, cls, hexOrDash(tr.Written()))
+		// whatever the refused call did with its read buffer, the pool must not hold one buffer twice afterwards
+		dup := 0
+		{
+			var got []*[]byte
+			seen := map[*byte]bool{}
+			for k := 0; k < 6; k++ {
+				b := pbytes.Get(1000)
+				if cap(*b) > 0 {
+					p0 := &(*b)[:1][0]
+					if seen[p0] {
+						dup = 1
+					}
+					seen[p0] = true
+				}
+				got = append(got, b)
+			}
+			for _, b := range got {
+				pbytes.Put(b)
+			}
+		}
+		emit("C18 rf q=%d %s n=%d err=%s queued=%s hang=0 dup=%d", q, strings.Join(hs, ","), n, cls, hexOrDash(tr.Written()), dup)
 		ch.Close(nil)
 	}
 }
